@@ -321,6 +321,8 @@ func checkC01(w *World) {
 	w.floor(P, "R01.10", 5)
 
 	w.checkRootHandling(P, f, r, ef)
+	// node tests and selectors never modify the node-set they were given (it is shared with other contexts)
+	w.include(P, "C03", "R03.6")
 }
 
 func fnName(f *ssa.Function) string {
